@@ -51,27 +51,7 @@ def run(ctx):
     m = ctx.m
     ctx.clause = ("WAL on/off branches perform identical B-tree operations; drained dirty pages are logged completely; durability "
                   "pragmas are read only by the WAL/commit layers.")
-    n = 0
-    for f, bb in wal_switches(m):
-        arms = f.succ(bb)
-        if len(arms) != 2:
-            continue
-        sets = []
-        for a in arms:
-            reg = set(x for x in f.reachable([a]) if f.dominates(a, x))
-            ops = [common.btree_call_parts(c)[1] for c in f.calls if c.bb in reg and common.btree_call_parts(c)]
-            for g in m.closures_of(f):
-                if any(c.bb in reg and common.closure_arg_is(m, f, c, g) for c in f.calls):
-                    ops += ["closure:" + common.btree_call_parts(c)[1] for c in g.calls if common.btree_call_parts(c)]
-            sets.append(sorted(ops))
-        if not any(sets):
-            continue
-        n += 1
-        ordinal = len([1 for o in ctx.obs if o["rule"] == "W1.ARM-AGREE" and o["key"].startswith(f.id.rsplit("::", 1)[-1] + "#")]) + 1
-        ok = sets[0] == sets[1]
-        ctx.ob("W1.ARM-AGREE", "%s#%d" % (f.id.rsplit("::", 1)[-1], ordinal), ok, "both arms: %s" % sets[0] if ok else
-               "the WAL-on and WAL-off arms perform different B-tree operations: %s vs %s" % (sets[0], sets[1]), "%s:%s" % (f.file, f.blocks[bb].get("l")))
-    ctx.floor("W1.wal_branches", n, 10)
+    arm_agree(ctx, "W1.ARM-AGREE", lambda f: True, 10)
     # W2
     common.drained_logged(ctx, "W2.DRAINED-LOGGED")
     # W3
@@ -90,3 +70,31 @@ def run(ctx):
     ctx.ob("W3.PRAGMA-ISOLATION", "sync_mode/threshold", not bad, "%d read(s), all in the WAL/commit layers" % uses if not bad else
            "durability settings are read by %s" % sorted({h for h, _ in bad})[:3], bad[0][1].loc() if bad else "")
     common.checkpoint_after_flush(ctx, "W4.CHECKPOINT-AFTER-FLUSH")
+
+
+def arm_agree(ctx, rule, keep, floor):
+    """every two-armed branch on `wal_enabled` whose arms operate on a B-tree performs the same multiset of B-tree operations"""
+    m = ctx.m
+    n = 0
+    for f, bb in wal_switches(m):
+        if not keep(f):
+            continue
+        arms = f.succ(bb)
+        if len(arms) != 2:
+            continue
+        sets = []
+        for a in arms:
+            reg = set(x for x in f.reachable([a]) if f.dominates(a, x))
+            ops = [common.btree_call_parts(c)[1] for c in f.calls if c.bb in reg and common.btree_call_parts(c)]
+            for g in m.closures_of(f):
+                if any(c.bb in reg and common.closure_arg_is(m, f, c, g) for c in f.calls):
+                    ops += ["closure:" + common.btree_call_parts(c)[1] for c in g.calls if common.btree_call_parts(c)]
+            sets.append(sorted(ops))
+        if not any(sets):
+            continue
+        n += 1
+        ordinal = len([1 for o in ctx.obs if o["rule"] == rule and o["key"].startswith(f.id.rsplit("::", 1)[-1] + "#")]) + 1
+        ok = sets[0] == sets[1]
+        ctx.ob(rule, "%s#%d" % (f.id.rsplit("::", 1)[-1], ordinal), ok, "both arms: %s" % sets[0] if ok else
+               "the WAL-on and WAL-off arms perform different B-tree operations: %s vs %s" % (sets[0], sets[1]), "%s:%s" % (f.file, f.blocks[bb].get("l")))
+    ctx.floor(rule + ".wal_branches", n, floor)
